@@ -21,7 +21,7 @@ use crate::simterm::SimTerm;
 
 pub struct C06;
 
-const WAYS: [&str; 10] = [
+const WAYS: [&str; 11] = [
     "hidden_target",
     "set_hidden_later",
     "non_tty_term",
@@ -32,6 +32,7 @@ const WAYS: [&str; 10] = [
     "moved_to_hidden_mp",
     "hidden_while_mp_hidden",
     "removed_while_mp_hidden",
+    "stderr_of_iterator_adaptor",
 ];
 
 fn style() -> ProgressStyle {
@@ -119,6 +120,18 @@ fn exec(sc: &Scenario) -> Report {
                 pb
             }
             "set_hidden_later" => ProgressBar::with_draw_target(len, ProgressDrawTarget::term_like(Box::new(spy.clone()))),
+            "stderr_of_iterator_adaptor" => {
+                // the bar that `.progress_count(n)` creates for itself draws to stderr, which is
+                // not a terminal where this harness runs (checked): hidden, with the given length
+                if console::Term::stderr().is_term() {
+                    r.inconclusive = true;
+                    return r;
+                }
+                use indicatif::ProgressIterator;
+                let l = len.unwrap_or(0);
+                vis.set_length(l);
+                (0..0u32).progress_count(l).progress
+            }
             "non_tty_term" => match non_tty() {
                 Some(t) => ProgressBar::with_draw_target(len, t),
                 None => {
@@ -292,7 +305,7 @@ impl Check for C06 {
         "C06"
     }
     fn rule_text(&self) -> String {
-        "One way of being hidden per run (ProgressDrawTarget::hidden(), ProgressBar::hidden(), set_draw_target(hidden()) after having been visible, a real console::Term over a regular file = not a tty, member of a MultiProgress built on a hidden target or on the non-tty Term, bar removed from a visible MultiProgress with a live sibling, bar handed over from a visible MultiProgress to a hidden one, member of a hidden MultiProgress that is also hidden explicitly, or removed from it, before the MultiProgress gets a visible target). A history of 3..30 calls (tick/inc/dec/set_position/set_message/set_prefix/length ops/set_style/set_tab_width/println/suspend/reset*/finish*/abandon*/finish_using_style/force_draw/update/enable+disable_steady_tick/wrap_iter/getters, clock gaps and simulated sleeps) is applied in lock-step to the hidden bar and to a visible twin on its own simulated terminal, same virtual clock. Oracle: after every call position/length/message/prefix/is_finished are equal; a spy terminal attributes every call and query to the API call in progress and must see none from the hidden bar (also while a steady ticker runs); the file behind the non-tty Term stays empty; no call panics. Non-trivial: >= 3 calls and the visible twin painted at least one frame. Distinct = distinct scenario hash.".into()
+        "One way of being hidden per run (ProgressDrawTarget::hidden(), ProgressBar::hidden(), set_draw_target(hidden()) after having been visible, a real console::Term over a regular file = not a tty, member of a MultiProgress built on a hidden target or on the non-tty Term, bar removed from a visible MultiProgress with a live sibling, bar handed over from a visible MultiProgress to a hidden one, member of a hidden MultiProgress that is also hidden explicitly, or removed from it, before the MultiProgress gets a visible target; the stderr bar an iterator adaptor creates for itself). A history of 3..30 calls (tick/inc/dec/set_position/set_message/set_prefix/length ops/set_style/set_tab_width/println/suspend/reset*/finish*/abandon*/finish_using_style/force_draw/update/enable+disable_steady_tick/wrap_iter/getters, clock gaps and simulated sleeps) is applied in lock-step to the hidden bar and to a visible twin on its own simulated terminal, same virtual clock. Oracle: after every call position/length/message/prefix/is_finished are equal; a spy terminal attributes every call and query to the API call in progress and must see none from the hidden bar (also while a steady ticker runs); the file behind the non-tty Term stays empty; no call panics. Non-trivial: >= 3 calls and the visible twin painted at least one frame. Distinct = distinct scenario hash.".into()
     }
     fn assumptions(&self) -> Vec<String> {
         vec![
@@ -309,7 +322,7 @@ impl Check for C06 {
     fn gen(&self, rng: &mut Rng, tier: Tier, _index: u64) -> Scenario {
         let mut sc = Scenario::new("C06", "twin", rng.next_u64());
         // the file-backed ways cost syscalls: keep them at a smaller share
-        sc.set("way", rng.weighted(&[5, 5, 1, 4, 1, 6, 2, 4, 4, 4]) as u64);
+        sc.set("way", rng.weighted(&[5, 5, 1, 4, 1, 6, 2, 4, 4, 4, 3]) as u64);
         sc.set("len_known", rng.chance(3, 4) as u64);
         sc.set("len0", boundary_u64(rng));
         sc.set("on_finish", rng.below(5));
